@@ -1701,3 +1701,501 @@ Proof.
   - apply coneighbor_expr_matmat_denotes; assumption.
   - apply polynome_expr_matmat_denotes; assumption.
 Qed.
+(* ------------------------------------------------------------------------------------------- *)
+(** * Utilities *)
+(** diagonal_pseudo_inverse: null weights stay null, the others are inverted *)
+Theorem pseudo_inverse_keeps_zero w :
+  dense (sdiag_pinv w) =m diag (map pinv w) /\
+  (forall i, nthq w i == 0 -> nthq (map pinv w) i == 0) /\
+  (forall i, (i < length w)%nat -> ~ nthq w i == 0 -> nthq (map pinv w) i * nthq w i == 1).
+Proof.
+  split; [apply dense_sdiag_pinv|]. split.
+  - intros i H. destruct (Nat.lt_ge_cases i (length w)) as [Hi|Hi].
+    + rewrite nthq_map by exact Hi. apply pinv_0; exact H.
+    + rewrite nthq_overflow by (rewrite map_length; exact Hi). reflexivity.
+  - intros i Hi H. rewrite nthq_map by exact Hi. apply pinv_inv; exact H.
+Qed.
+
+(** get_norms / normalize on a CSR matrix *)
+Lemma srow_dot_map_ones f n row : srow_wf n row ->
+  srow_dot (map (fun e => (fst e, f (snd e))) row) (vones n) == sumq (map (fun e => f (snd e)) row).
+Proof.
+  induction 1 as [|e row He H IH]; [reflexivity|]. unfold srow_dot in *. simpl. rewrite IH.
+  rewrite nthq_vones by exact He. ring.
+Qed.
+Theorem get_norms1_def s : swf s -> snorms1 s =v map srow_norm1 (s_rows s).
+Proof.
+  intros W. unfold snorms1, smv, smap; simpl. rewrite map_map. unfold swf in W.
+  induction W as [|row rows Hr W IH]; simpl; constructor; auto. apply srow_dot_map_ones; exact Hr.
+Qed.
+Theorem get_norms2_def sqrtf s : Proper (Qeq ==> Qeq) sqrtf -> swf s ->
+  snorms2 sqrtf s =v map (fun row => sqrtf (srow_norm2sq row)) (s_rows s).
+Proof.
+  intros Hs W. unfold snorms2, smv, smap; simpl. rewrite !map_map. unfold swf in W.
+  induction W as [|row rows Hr W IH]; simpl; constructor; auto. apply Hs.
+  apply (srow_dot_map_ones (fun q => q * q)); exact Hr.
+Qed.
+
+Lemma nth_sdiag_pinv_row w i : (i < length w)%nat ->
+  nth i (s_rows (sdiag_pinv w)) [] = if Qeq_bool (nthq w i) 0 then [] else [(i, / nthq w i)].
+Proof.
+  intros Hi. unfold sdiag_pinv, smap, sdiag; simpl. rewrite map_map. rewrite nth_seq_map by exact Hi.
+  destruct (Qeq_bool (nthq w i) 0); reflexivity.
+Qed.
+Lemma nth_scaled_row w s i : (i < length w)%nat ->
+  nth i (s_rows (smul (sdiag_pinv w) s)) [] =
+  if Qeq_bool (nthq w i) 0 then [] else map (fun f => (fst f, / nthq w i * snd f)) (nth i (s_rows s) []) ++ [].
+Proof.
+  intros Hi. unfold smul; simpl.
+  rewrite (nth_map_gen (fun row => srow_mul row s) (s_rows (sdiag_pinv w)) [] []) by (fold (s_nrow (sdiag_pinv w)); rewrite sdiag_pinv_nrow; exact Hi).
+  rewrite nth_sdiag_pinv_row by exact Hi. destruct (Qeq_bool (nthq w i) 0); reflexivity.
+Qed.
+Lemma srow_norm1_nonneg row : 0 <= srow_norm1 row.
+Proof.
+  unfold srow_norm1. induction row as [|e row IH]; simpl; [apply Qle_refl|].
+  apply (Qplus_le_compat 0 _ 0); [apply Qabs_nonneg | exact IH].
+Qed.
+Lemma srow_norm1_scale c row : srow_norm1 (map (fun f => (fst f, c * snd f)) row ++ []) == Qabs c * srow_norm1 row.
+Proof.
+  rewrite app_nil_r. unfold srow_norm1. rewrite map_map. simpl.
+  rewrite <- sumq_map_scale. apply sumq_map_ext. intros a _. apply Qabs_Qmult.
+Qed.
+Lemma srow_norm2sq_scale c row : srow_norm2sq (map (fun f => (fst f, c * snd f)) row ++ []) == c * c * srow_norm2sq row.
+Proof.
+  rewrite app_nil_r. unfold srow_norm2sq. rewrite map_map. simpl.
+  rewrite <- sumq_map_scale. apply sumq_map_ext. intros a _. ring.
+Qed.
+
+(** normalize(p=1): D^+ A with D the row norms; every row of the result has norm 1, or was null and stays null *)
+Theorem normalize_def s : swf s ->
+  dense (snormalize s) =m row_scale (map pinv (map srow_norm1 (s_rows s))) (dense s).
+Proof.
+  intros W. unfold snormalize. rewrite dense_smul_sdiag_pinv by (unfold snorms1; vlen).
+  apply row_scale_proper; [|reflexivity]. apply map_pinv_instance. apply get_norms1_def; exact W.
+Qed.
+Theorem normalize_rows_sum_1_or_0 s i : swf s -> (i < s_nrow s)%nat ->
+  let row := nth i (s_rows s) [] in
+  let row' := nth i (s_rows (snormalize s)) [] in
+  (srow_norm1 row == 0 /\ row' = []) \/ srow_norm1 row' == 1.
+Proof.
+  intros W Hi row row'. pose proof (get_norms1_def s W) as EN.
+  assert (HL : length (snorms1 s) = s_nrow s) by (unfold snorms1; vlen).
+  assert (Ei : nthq (snorms1 s) i == srow_norm1 row).
+  { rewrite (veq_nthq _ _ i EN). unfold row. rewrite (nthq_map_gen srow_norm1 (s_rows s) []) by exact Hi. reflexivity. }
+  unfold row', snormalize. rewrite nth_scaled_row by lia.
+  destruct (Qeq_bool (nthq (snorms1 s) i) 0) eqn:E.
+  - left. apply Qeq_bool_iff in E. split; [rewrite <- Ei; exact E | reflexivity].
+  - right. apply Qeq_bool_neq in E. fold row. rewrite srow_norm1_scale.
+    assert (Hpos : 0 < nthq (snorms1 s) i).
+    { destruct (Qlt_le_dec 0 (nthq (snorms1 s) i)) as [L|L]; [exact L|]. exfalso. apply E.
+      apply Qle_antisym; [exact L|]. rewrite Ei. apply srow_norm1_nonneg. }
+    rewrite Qabs_pos by (apply Qlt_le_weak, Qinv_lt_0_compat; exact Hpos).
+    rewrite <- Ei. rewrite Qmult_comm. apply Qmult_inv_r. exact E.
+Qed.
+(** normalize(p=2), stated on squares; the oracle only has to satisfy sqrt(q)^2 = q on the row's sum of squares *)
+Theorem normalize2_rows_sum_1_or_0 sqrtf s i : Proper (Qeq ==> Qeq) sqrtf -> swf s -> (i < s_nrow s)%nat ->
+  let row := nth i (s_rows s) [] in
+  let row' := nth i (s_rows (snormalize2 sqrtf s)) [] in
+  sqrtf (srow_norm2sq row) * sqrtf (srow_norm2sq row) == srow_norm2sq row ->
+  (sqrtf (srow_norm2sq row) == 0 /\ row' = []) \/ srow_norm2sq row' == 1.
+Proof.
+  intros Hs W Hi row row' Hsq. pose proof (get_norms2_def sqrtf s Hs W) as EN.
+  assert (HL : length (snorms2 sqrtf s) = s_nrow s) by (unfold snorms2; vlen).
+  assert (Ei : nthq (snorms2 sqrtf s) i == sqrtf (srow_norm2sq row)).
+  { rewrite (veq_nthq _ _ i EN). unfold row.
+    rewrite (nthq_map_gen (fun r => sqrtf (srow_norm2sq r)) (s_rows s) []) by exact Hi. reflexivity. }
+  unfold row', snormalize2. rewrite nth_scaled_row by lia.
+  destruct (Qeq_bool (nthq (snorms2 sqrtf s) i) 0) eqn:E.
+  - left. apply Qeq_bool_iff in E. split; [rewrite <- Ei; exact E | reflexivity].
+  - right. apply Qeq_bool_neq in E. fold row. rewrite srow_norm2sq_scale. rewrite <- Hsq, <- Ei. field. exact E.
+Qed.
+
+(** get_laplacian = D - A *)
+Theorem laplacian_def a : swf a -> s_nrow a = s_ncol a ->
+  dense (get_laplacian a) =m msub (diag (row_sums (dense a))) (dense a).
+Proof. intros W Hsq. apply (laplacian_sparse_wf a W Hsq). Qed.
+
+(** get_membership / from_membership *)
+Lemma zmax_ge l labels : In l labels -> (l <= zmax labels)%Z.
+Proof.
+  induction labels as [|a labels IH]; simpl; [contradiction|]. intros [<-|H]; [lia|]. specialize (IH H). lia.
+Qed.
+Lemma zmax_lower labels : (-1 <= zmax labels)%Z.
+Proof. induction labels as [|a labels IH]; simpl; lia. Qed.
+Theorem membership_total labels : labels <> [] -> exists m, get_membership labels None = Ok m.
+Proof.
+  intros H. unfold get_membership. destruct labels as [|l0 labels]; [contradiction|].
+  set (L := l0 :: labels) in *. cbv beta iota.
+  assert (E : forallb (fun l => Z.ltb l (Z.of_nat (membership_ncol L None))) L = true).
+  { apply forallb_forall. intros l Hl. apply Z.ltb_lt. unfold membership_ncol.
+    pose proof (zmax_ge l L Hl). pose proof (zmax_lower L). rewrite Z2Nat.id by lia. lia. }
+  rewrite E. eexists; reflexivity.
+Qed.
+Theorem membership_def labels n_labels m : get_membership labels n_labels = Ok m ->
+  s_nrow m = length labels /\ swf m /\
+  (forall i j, (i < length labels)%nat -> (j < s_ncol m)%nat ->
+     mget (dense m) i j == if Z.eqb (nth i labels 0%Z) (Z.of_nat j) then 1 else 0) /\
+  from_membership m = Ok (map (fun l => if Z.ltb l 0 then (-1)%Z else l) labels).
+Proof.
+  unfold get_membership. destruct (match labels, n_labels with [], None => true | _, _ => false end); [discriminate|].
+  set (nc := membership_ncol labels n_labels). clearbody nc.
+  destruct (forallb (fun l => Z.ltb l (Z.of_nat nc)) labels) eqn:E; [|discriminate].
+  intros H; injection H as <-. rewrite forallb_forall in E.
+  split; [unfold s_nrow; simpl; apply map_length|]. split; [|split].
+  - unfold swf; simpl. rewrite Forall_forall. intros r Hr. apply in_map_iff in Hr. destruct Hr as [l [<- Hl]].
+    destruct (Z.leb 0 l) eqn:El; constructor; [|constructor]. simpl. apply Z.leb_le in El.
+    specialize (E l Hl). apply Z.ltb_lt in E. lia.
+  - intros i j Hi Hj. rewrite mget_dense by (unfold s_nrow; simpl; rewrite ?map_length; assumption). simpl.
+    rewrite (nth_map_gen (fun l => if Z.leb 0 l then [(Z.to_nat l, 1)] else []) labels 0%Z []) by exact Hi.
+    destruct (Z.leb 0 (nth i labels 0%Z)) eqn:El.
+    + apply Z.leb_le in El. rewrite entry_cons, entry_nil. simpl.
+      destruct (Nat.eqb (Z.to_nat (nth i labels 0%Z)) j) eqn:Ej.
+      * apply Nat.eqb_eq in Ej. replace (Z.eqb (nth i labels 0%Z) (Z.of_nat j)) with true by (symmetry; apply Z.eqb_eq; lia). ring.
+      * apply Nat.eqb_neq in Ej. replace (Z.eqb (nth i labels 0%Z) (Z.of_nat j)) with false by (symmetry; apply Z.eqb_neq; lia). ring.
+    + apply Z.leb_gt in El. rewrite entry_nil.
+      replace (Z.eqb (nth i labels 0%Z) (Z.of_nat j)) with false by (symmetry; apply Z.eqb_neq; lia). reflexivity.
+  - unfold from_membership; simpl.
+    assert (F : forallb (fun r : list (nat * Q) => Nat.leb (length r) 1)
+                  (map (fun l => if Z.leb 0 l then [(Z.to_nat l, 1)] else []) labels) = true).
+    { apply forallb_forall. intros r Hr. apply in_map_iff in Hr. destruct Hr as [l [<- _]]. destruct (Z.leb 0 l); reflexivity. }
+    rewrite F. f_equal. rewrite map_map. apply map_ext. intros l.
+    destruct (Z.leb 0 l) eqn:El.
+    + apply Z.leb_le in El. simpl. replace (Z.ltb l 0) with false by (symmetry; apply Z.ltb_ge; lia). lia.
+    + apply Z.leb_gt in El. replace (Z.ltb l 0) with true by (symmetry; apply Z.ltb_lt; lia). reflexivity.
+Qed.
+
+(** get_neighbors / get_degrees / get_weights *)
+Lemma In_tcol j i0 rows i v :
+  In (i, v) (tcol j i0 rows) <-> (i0 <= i)%nat /\ (i < i0 + length rows)%nat /\ In (j, v) (nth (i - i0) rows []).
+Proof.
+  revert i0; induction rows as [|r rows IH]; intros i0; simpl.
+  - split; [contradiction|]. intros (H1 & H2 & _). lia.
+  - rewrite in_app_iff, IH, in_map_iff. split.
+    + intros [[e [He Hf]] | (H1 & H2 & H3)].
+      * injection He as <- <-. apply filter_In in Hf. destruct Hf as [Hf Hj]. apply Nat.eqb_eq in Hj.
+        rewrite Nat.sub_diag. split; [lia|]. split; [lia|]. rewrite <- Hj. destruct e; exact Hf.
+      * split; [lia|]. split; [lia|]. replace (i - i0)%nat with (S (i - S i0)) by lia. exact H3.
+    + intros (H1 & H2 & H3). destruct (Nat.eq_dec i i0) as [->|Hne].
+      * left. rewrite Nat.sub_diag in H3. exists (j, v). split; [reflexivity|]. apply filter_In. split; [exact H3|]. apply Nat.eqb_refl.
+      * right. split; [lia|]. split; [lia|]. replace (i - i0)%nat with (S (i - S i0)) in H3 by lia. exact H3.
+Qed.
+Theorem neighbors_def s i : get_neighbors s i false = map fst (nth i (s_rows s) []).
+Proof. reflexivity. Qed.
+Theorem neighbors_transpose_def s i j : (j < s_ncol s)%nat ->
+  (In i (get_neighbors s j true) <-> (i < s_nrow s)%nat /\ In j (get_neighbors s i false)).
+Proof.
+  intros Hj. unfold get_neighbors, stranspose; simpl. rewrite nth_seq_map by exact Hj. rewrite !in_map_iff. split.
+  - intros [[i' v] [Hi H]]. simpl in Hi. subst i'. apply In_tcol in H. destruct H as (_ & H2 & H3).
+    rewrite Nat.sub_0_r in H3. split; [exact H2|]. exists (j, v). split; [reflexivity | exact H3].
+  - intros (Hi & [[j' v] [Hjv H]]). simpl in Hjv. subst j'. exists (i, v). split; [reflexivity|].
+    apply In_tcol. rewrite Nat.sub_0_r. split; [lia|]. split; [exact Hi | exact H].
+Qed.
+Theorem degrees_def s : get_degrees s false = map (@length (nat * Q)) (s_rows s).
+Proof. reflexivity. Qed.
+Lemma tcol_length j i0 rows : length (tcol j i0 rows) = sumn (map (fun r => length (filter (fun e => Nat.eqb (fst e) j) r)) rows).
+Proof. revert i0; induction rows as [|r rows IH]; intros i0; simpl; [reflexivity|]. rewrite app_length, map_length, IH. reflexivity. Qed.
+Theorem degrees_transpose_def s j : (j < s_ncol s)%nat ->
+  nth j (get_degrees s true) 0%nat = sumn (map (fun r => length (filter (fun e => Nat.eqb (fst e) j) r)) (s_rows s)).
+Proof.
+  intros Hj. unfold get_degrees, stranspose; simpl. rewrite map_map. rewrite nth_seq_map by exact Hj. apply tcol_length.
+Qed.
+Theorem weights_def s : swf s ->
+  get_weights s false =v row_sums (dense s) /\ get_weights s true =v col_sums (s_ncol s) (dense s).
+Proof.
+  intros W. unfold get_weights. split.
+  - rewrite smv_dense by (auto; vlen). apply (mat_vec_vones _ _ _ (dense_wf s)).
+  - rewrite smv_dense by (auto using swf_stranspose; vlen). rewrite dense_stranspose, stranspose_ncol.
+    rewrite <- (dense_length s). apply mat_vec_transpose_vones.
+Qed.
+
+(** directed2undirected *)
+Lemma entry_flat_seq (b : nat -> bool) (v : nat -> Q) a n j0 :
+  entry (flat_map (fun j => if b j then [(j, v j)] else []) (seq a n)) j0
+  == if (Nat.leb a j0 && Nat.ltb j0 (a + n) && b j0)%bool then v j0 else 0.
+Proof.
+  revert a; induction n as [|n IH]; intros a; simpl.
+  - rewrite entry_nil. replace (Nat.ltb j0 (a + 0)) with (Nat.ltb j0 a) by (f_equal; lia).
+    destruct (Nat.leb a j0) eqn:E1, (Nat.ltb j0 a) eqn:E2; simpl; try reflexivity.
+    apply Nat.leb_le in E1. apply Nat.ltb_lt in E2. lia.
+  - rewrite entry_app, IH. destruct (Nat.eq_dec a j0) as [->|Hne].
+    + replace (Nat.leb (S j0) j0) with false by (symmetry; apply Nat.leb_gt; lia).
+      replace (Nat.leb j0 j0) with true by (symmetry; apply Nat.leb_le; lia).
+      replace (Nat.ltb j0 (j0 + S n)) with true by (symmetry; apply Nat.ltb_lt; lia). simpl.
+      destruct (b j0); [rewrite entry_cons, entry_nil; simpl; rewrite Nat.eqb_refl; ring | rewrite entry_nil; ring].
+    + assert (E0 : entry (if b a then [(a, v a)] else []) j0 == 0).
+      { destruct (b a); [|reflexivity]. rewrite entry_cons, entry_nil. simpl.
+        replace (Nat.eqb a j0) with false by (symmetry; apply Nat.eqb_neq; exact Hne). ring. }
+      rewrite E0. replace (Nat.ltb j0 (a + S n)) with (Nat.ltb j0 (S a + n)) by (f_equal; lia).
+      destruct (Nat.leb (S a) j0) eqn:E1.
+      * apply Nat.leb_le in E1. replace (Nat.leb a j0) with true by (symmetry; apply Nat.leb_le; lia). ring.
+      * apply Nat.leb_gt in E1. replace (Nat.leb a j0) with false by (symmetry; apply Nat.leb_gt; lia). simpl. ring.
+Qed.
+Lemma sbool_wf s : swf (sbool s).
+Proof.
+  unfold swf, sbool; simpl. rewrite Forall_forall. intros r Hr. apply in_map_iff in Hr. destruct Hr as [row [<- _]].
+  unfold srow_wf. rewrite Forall_forall. intros e He. apply in_flat_map in He. destruct He as [j [Hj He]].
+  apply in_seq in Hj. destruct (Qeq_bool (entry row j) 0); [contradiction|]. destruct He as [<-|[]]. simpl. lia.
+Qed.
+Lemma mget_sbool s i j : (i < s_nrow s)%nat -> (j < s_ncol s)%nat ->
+  mget (dense (sbool s)) i j == if Qeq_bool (mget (dense s) i j) 0 then 0 else 1.
+Proof.
+  intros Hi Hj. rewrite mget_dense by (unfold s_nrow, sbool in *; simpl; rewrite ?map_length; assumption).
+  rewrite (mget_dense s) by assumption. unfold sbool; simpl.
+  rewrite (nth_map_gen _ (s_rows s) [] []) by exact Hi.
+  set (row := nth i (s_rows s) []).
+  assert (E : forall l, flat_map (fun j0 => if Qeq_bool (entry row j0) 0 then [] else [(j0, 1)]) l
+                      = flat_map (fun j0 => if negb (Qeq_bool (entry row j0) 0) then [(j0, (fun _ => 1) j0)] else []) l).
+  { intros l. apply flat_map_ext. intros a. destruct (Qeq_bool (entry row a) 0); reflexivity. }
+  rewrite E, entry_flat_seq. simpl.
+  replace (Nat.ltb j (s_ncol s)) with true by (symmetry; apply Nat.ltb_lt; exact Hj). simpl.
+  destruct (Qeq_bool (entry row j) 0); reflexivity.
+Qed.
+Theorem directed2undirected_def a : swf a -> s_nrow a = s_ncol a ->
+  dense (directed2undirected a true) =m madd (dense a) (transpose_n (s_ncol a) (dense a)) /\
+  (forall i j, (i < s_nrow a)%nat -> (j < s_nrow a)%nat ->
+     mget (dense (directed2undirected a false)) i j
+     == if Qeq_bool (mget (dense a) i j + mget (dense a) j i) 0 then 0 else 1).
+Proof.
+  intros W Hsq.
+  assert (E : dense (sadd a (stranspose a)) =m madd (dense a) (transpose_n (s_ncol a) (dense a))).
+  { rewrite dense_sadd by (rewrite stranspose_ncol; lia). rewrite dense_stranspose. reflexivity. }
+  split; [exact E|]. intros i j Hi Hj. change (directed2undirected a false) with (sbool (sadd a (stranspose a))).
+  assert (HB : mget (dense (sbool (sadd a (stranspose a)))) i j
+               == if Qeq_bool (mget (dense (sadd a (stranspose a))) i j) 0 then 0 else 1).
+  { apply mget_sbool; [rewrite sadd_nrow by (rewrite stranspose_nrow; lia); lia | rewrite sadd_ncol; lia]. }
+  rewrite HB.
+  assert (E2 : mget (dense (sadd a (stranspose a))) i j == mget (dense a) i j + mget (dense a) j i).
+  { rewrite E. pose proof (dense_wf a) as WA. rewrite <- Hsq in WA.
+    rewrite (mget_madd (s_nrow a) (s_nrow a)) by (auto; rewrite <- Hsq; apply transpose_n_wf; apply dense_length).
+    rewrite mget_transpose_n by (rewrite ?dense_length; lia). reflexivity. }
+  destruct (Qeq_bool (mget (dense (sadd a (stranspose a))) i j) 0) eqn:B1,
+           (Qeq_bool (mget (dense a) i j + mget (dense a) j i) 0) eqn:B2; try reflexivity.
+  - apply Qeq_bool_iff in B1. apply Qeq_bool_neq in B2. exfalso. apply B2. rewrite <- E2. exact B1.
+  - apply Qeq_bool_iff in B2. apply Qeq_bool_neq in B1. exfalso. apply B1. rewrite E2. exact B2.
+Qed.
+(** bipartite2undirected / bipartite2directed: the block matrices of the documentation *)
+Lemma entry_sshift k row j : entry (sshift k row) j == if Nat.leb k j then entry row (j - k) else 0.
+Proof.
+  induction row as [|e row IH]; simpl.
+  - rewrite !entry_nil. destruct (Nat.leb k j); reflexivity.
+  - change (sshift k (e :: row)) with (((fst e + k)%nat, snd e) :: sshift k row) in *.
+    rewrite entry_cons, IH. simpl fst. simpl snd. destruct (Nat.leb k j) eqn:E.
+    + apply Nat.leb_le in E. rewrite entry_cons.
+      destruct (Nat.eqb (fst e + k) j) eqn:E1, (Nat.eqb (fst e) (j - k)) eqn:E2; try reflexivity;
+        [apply Nat.eqb_eq in E1; apply Nat.eqb_neq in E2; lia | apply Nat.eqb_neq in E1; apply Nat.eqb_eq in E2; lia].
+    + apply Nat.leb_gt in E. replace (Nat.eqb (fst e + k) j) with false by (symmetry; apply Nat.eqb_neq; lia). ring.
+Qed.
+Lemma nth_mzero r c i : (i < r)%nat -> nth i (mzero r c) [] = vzero c.
+Proof. unfold mzero. revert i; induction r as [|r IH]; intros [|i] Hi; simpl; try lia; auto. apply IH; lia. Qed.
+
+Lemma bip_dense b bottom D :
+  swf b -> length bottom = s_ncol b -> Forall (srow_wf (s_nrow b)) bottom -> wf_mat (s_ncol b) (s_nrow b) D ->
+  (forall i j, (i < s_ncol b)%nat -> (j < s_nrow b)%nat -> entry (nth i bottom []) j == mget D i j) ->
+  dense {| s_ncol := (s_nrow b + s_ncol b)%nat; s_rows := map (sshift (s_nrow b)) (s_rows b) ++ bottom |}
+  =m block (mzero (s_nrow b) (s_nrow b)) (dense b) D (mzero (s_ncol b) (s_ncol b)).
+Proof.
+  intros W Hb Wb WD HD. set (r := s_nrow b) in *. set (c := s_ncol b) in *.
+  set (S := {| s_ncol := (r + c)%nat; s_rows := map (sshift r) (s_rows b) ++ bottom |}).
+  assert (HSr : s_nrow S = (r + c)%nat) by (unfold s_nrow, S; simpl; rewrite app_length, map_length; fold (s_nrow b); lia).
+  pose proof (dense_wf S) as WS. rewrite HSr in WS. simpl s_ncol in WS.
+  pose proof (dense_wf b) as WB. fold r c in WB.
+  pose proof (mzero_wf r r) as WZ1. pose proof (mzero_wf c c) as WZ2.
+  apply (meq_mget (r + c) (r + c)); [exact WS | apply block_wf; assumption|].
+  intros i j Hi Hj. rewrite mget_dense by (rewrite ?HSr; simpl; assumption). simpl s_rows.
+  destruct (Nat.lt_ge_cases i r) as [Hir|Hir].
+  - rewrite app_nth1 by (rewrite map_length; exact Hir).
+    rewrite (nth_map_gen (sshift r) (s_rows b) [] []) by exact Hir. rewrite entry_sshift.
+    destruct (Nat.leb r j) eqn:E.
+    + apply Nat.leb_le in E. replace j with (r + (j - r))%nat at 2 by lia.
+      rewrite (mget_block_12 _ _ _ _ i (j - r) r)
+        by (rewrite ?(wf_mat_length _ _ _ WZ1), ?(wf_mat_length _ _ _ WB), ?(wf_mat_row _ _ _ _ WZ1 Hir); lia).
+      rewrite mget_dense by (fold r c; lia). reflexivity.
+    + apply Nat.leb_gt in E.
+      rewrite mget_block_11 by (rewrite ?(wf_mat_length _ _ _ WZ1), ?(wf_mat_length _ _ _ WB), ?(wf_mat_row _ _ _ _ WZ1 Hir); lia).
+      rewrite mget_mzero. reflexivity.
+  - rewrite app_nth2 by (rewrite map_length; exact Hir). rewrite map_length. fold (s_nrow b). fold r.
+    assert (Hi' : (i - r < c)%nat) by lia.
+    replace i with (r + (i - r))%nat at 2 by lia.
+    destruct (Nat.lt_ge_cases j r) as [Hjr|Hjr].
+    + rewrite (mget_block_21 _ _ _ _ (i - r) j r)
+        by (rewrite ?(wf_mat_length _ _ _ WZ1), ?(wf_mat_length _ _ _ WB), ?(wf_mat_length _ _ _ WD), ?(wf_mat_length _ _ _ WZ2),
+                    ?(wf_mat_row _ _ _ _ WD Hi'); lia).
+      apply HD; assumption.
+    + replace j with (r + (j - r))%nat at 2 by lia.
+      rewrite (mget_block_22 _ _ _ _ (i - r) (j - r) r r)
+        by (rewrite ?(wf_mat_length _ _ _ WZ1), ?(wf_mat_length _ _ _ WB), ?(wf_mat_length _ _ _ WD), ?(wf_mat_length _ _ _ WZ2),
+                    ?(wf_mat_row _ _ _ _ WD Hi'); lia).
+      rewrite mget_mzero. apply (entry_out r); [|exact Hjr].
+      destruct (Nat.lt_ge_cases (i - r) (length bottom)) as [L|L].
+      * rewrite Forall_forall in Wb. apply Wb. apply nth_In; exact L.
+      * rewrite nth_overflow by exact L. constructor.
+Qed.
+
+Theorem bipartite_block_def b : swf b ->
+  dense (bipartite2undirected b)
+  =m block (mzero (s_nrow b) (s_nrow b)) (dense b) (transpose_n (s_ncol b) (dense b)) (mzero (s_ncol b) (s_ncol b)) /\
+  dense (bipartite2directed b)
+  =m block (mzero (s_nrow b) (s_nrow b)) (dense b) (mzero (s_ncol b) (s_nrow b)) (mzero (s_ncol b) (s_ncol b)).
+Proof.
+  intros W. split.
+  - unfold bipartite2undirected. apply bip_dense; auto.
+    + fold (s_nrow (stranspose b)). apply stranspose_nrow.
+    + pose proof (swf_stranspose b) as Wt. unfold swf in Wt. rewrite stranspose_ncol in Wt. exact Wt.
+    + apply transpose_n_wf. apply dense_length.
+    + intros i j Hi Hj. rewrite <- mget_dense by (rewrite ?stranspose_nrow, ?stranspose_ncol; assumption).
+      rewrite dense_stranspose. reflexivity.
+  - unfold bipartite2directed. apply bip_dense; auto.
+    + apply repeat_length.
+    + rewrite Forall_forall. intros r Hr. apply repeat_spec in Hr. subst r. constructor.
+    + apply mzero_wf.
+    + intros i j Hi Hj. rewrite mget_mzero.
+      assert (E : nth i (repeat (@nil (nat * Q)) (s_ncol b)) [] = []).
+      { clear. revert i; induction (s_ncol b) as [|n IH]; intros [|i]; simpl; auto. }
+      rewrite E. reflexivity.
+Qed.
+
+(** get_tfidf = tf . diag(idf) *)
+Lemma col_diag d j : (j < length d)%nat -> col j (diag d) =v vscale (nthq d j) (unit (length d) j).
+Proof.
+  intros Hj. pose proof (diag_wf d) as WD.
+  apply veq_nth; [rewrite col_length, vscale_length, unit_length; apply (wf_mat_length _ _ _ WD)|].
+  intros i Hi. rewrite col_length, (wf_mat_length _ _ _ WD) in Hi.
+  rewrite nthq_col by (rewrite (wf_mat_length _ _ _ WD); exact Hi). rewrite mget_diag by assumption.
+  rewrite nthq_vscale by (rewrite unit_length; exact Hi). rewrite nthq_unit by exact Hi. rewrite (Nat.eqb_sym j i).
+  destruct (Nat.eqb i j) eqn:E; [apply Nat.eqb_eq in E; subst; ring | ring].
+Qed.
+Lemma mat_mul_diag_r r M d : wf_mat r (length d) M -> mat_mul (length d) M (diag d) =m col_scale M d.
+Proof.
+  intros WM. pose proof (diag_wf d) as WD.
+  apply (meq_mget r (length d)); [eapply mat_mul_wf; eauto | apply col_scale_wf; auto|].
+  intros i j Hi Hj. rewrite (mget_mat_mul r (length d) (length d)) by assumption.
+  rewrite col_diag by exact Hj. rewrite dot_vscale_r, dot_comm, dot_unit_l by (auto; apply (wf_mat_row _ _ _ _ WM Hi)).
+  rewrite (mget_col_scale r (length d)) by auto. unfold mget. ring.
+Qed.
+Lemma tfidf_idf_length lnf c : length (tfidf_idf lnf c) = s_ncol c.
+Proof. unfold tfidf_idf, get_degrees. rewrite !map_length. fold (s_nrow (stranspose (spos c))). rewrite stranspose_nrow. reflexivity. Qed.
+Theorem tfidf_def lnf c : swf c ->
+  dense (get_tfidf lnf c) =m col_scale (dense (snormalize c)) (tfidf_idf lnf c) /\
+  (forall j, (j < s_ncol c)%nat ->
+     nthq (tfidf_idf lnf c) j =
+     let f := nth j (get_degrees (spos c) true) 0%nat in if Nat.ltb 0 f then lnf (qnat (s_nrow c) / qnat f) else 0).
+Proof.
+  intros W. pose proof (tfidf_idf_length lnf c) as HL. split.
+  - unfold get_tfidf. assert (Wn : swf (snormalize c)) by (apply swf_smul; exact W).
+    rewrite dense_smul by (auto; rewrite sdiag_nrow, HL; reflexivity).
+    rewrite dense_sdiag, sdiag_ncol. apply (mat_mul_diag_r (s_nrow (snormalize c))).
+    pose proof (dense_wf (snormalize c)) as WD. rewrite HL. exact WD.
+  - intros j Hj. unfold tfidf_idf.
+    rewrite (nthq_map_gen _ (get_degrees (spos c) true) 0%nat); [reflexivity|].
+    unfold get_degrees. rewrite map_length. fold (s_nrow (stranspose (spos c))). rewrite stranspose_nrow. simpl. exact Hj.
+Qed.
+
+(** top_k *)
+Lemma map_nth_seq {A} (l : list A) d : map (fun i => nth i l d) (seq 0 (length l)) = l.
+Proof.
+  induction l as [|a l IH]; [reflexivity|]. simpl length. rewrite <- cons_seq. simpl. f_equal.
+  rewrite <- seq_shift, map_map. exact IH.
+Qed.
+Lemma perm_map_nth {A} (l : list A) d q : Permutation q (seq 0 (length l)) -> Permutation (map (fun i => nth i l d) q) l.
+Proof. intros H. eapply Permutation_trans; [apply Permutation_map; exact H | rewrite map_nth_seq; apply Permutation_refl]. Qed.
+
+Lemma NoDup_app_l {A} (l l' : list A) : NoDup (l ++ l') -> NoDup l.
+Proof.
+  induction l as [|a l IH]; simpl; intros H; [constructor|]. inversion H as [|x xs Hx Hxs]; subst.
+  constructor; [intros I; apply Hx; apply in_or_app; left; exact I | apply IH; exact Hxs].
+Qed.
+
+Lemma nthq_neg scores i : (i < length scores)%nat -> nthq (map Qopp scores) i = - nthq scores i.
+Proof. apply nthq_map. Qed.
+
+(** contracts of np.argsort and np.argpartition are premises (checked at run time on every captured answer) *)
+Theorem top_k_def (argsort : list Q -> list nat) (argpartition : list Q -> nat -> list nat) scores k sort idx :
+    (forall l, Permutation (argsort l) (seq 0 (length l))) ->
+    (forall l a b, (a <= b)%nat -> (b < length l)%nat ->
+       nthq l (nth a (argsort l) 0%nat) <= nthq l (nth b (argsort l) 0%nat)) ->
+    (forall l k, (k < length l)%nat -> Permutation (argpartition l k) (seq 0 (length l))) ->
+    (forall l k a b, (k < length l)%nat -> (a < k)%nat -> (k <= b)%nat -> (b < length l)%nat ->
+       nthq l (nth a (argpartition l k) 0%nat) <= nthq l (nth b (argpartition l k) 0%nat)) ->
+    top_k argsort argpartition scores k sort = Ok idx ->
+    length idx = Nat.min k (length scores) /\ NoDup idx /\ (forall i, In i idx -> (i < length scores)%nat) /\
+    (forall i j, In i idx -> (j < length scores)%nat -> ~ In j idx -> nthq scores j <= nthq scores i) /\
+    (sort = true -> forall a b, (a <= b)%nat -> (b < length idx)%nat ->
+                    nthq scores (nth b idx 0%nat) <= nthq scores (nth a idx 0%nat)).
+  Proof.
+    intros argsort_perm argsort_sorted argpartition_perm argpartition_split.
+    unfold top_k. set (n := length scores). set (neg := map Qopp scores).
+    assert (Hneg : length neg = n) by (unfold neg; apply map_length).
+    destruct (Nat.leb n k) eqn:Ek.
+    - apply Nat.leb_le in Ek. destruct sort; [|discriminate]. intros H; injection H as <-.
+      pose proof (argsort_perm neg) as P. rewrite Hneg in P.
+      assert (HL : length (argsort neg) = n) by (rewrite (Permutation_length P); apply seq_length).
+      split; [rewrite HL; lia|]. split; [apply (Permutation_NoDup (Permutation_sym P)), seq_NoDup|].
+      split; [intros i Hi; apply (Permutation_in _ P), in_seq in Hi; lia|].
+      split.
+      + intros i j _ Hj Hnj. exfalso. apply Hnj. apply (Permutation_in _ (Permutation_sym P)). apply in_seq. lia.
+      + intros _ a b Hab Hb. rewrite HL in Hb. pose proof (argsort_sorted neg a b Hab ltac:(lia)) as S.
+        assert (Ha' : (nth a (argsort neg) 0 < n)%nat).
+        { assert (In (nth a (argsort neg) 0%nat) (argsort neg)) as I by (apply nth_In; lia).
+          apply (Permutation_in _ P), in_seq in I. lia. }
+        assert (Hb' : (nth b (argsort neg) 0 < n)%nat).
+        { assert (In (nth b (argsort neg) 0%nat) (argsort neg)) as I by (apply nth_In; lia).
+          apply (Permutation_in _ P), in_seq in I. lia. }
+        unfold neg in S. rewrite !nthq_neg in S by assumption. apply Qopp_le_compat in S. rewrite !Qopp_involutive in S. exact S.
+    - apply Nat.leb_gt in Ek. set (p := argpartition neg k). set (index := firstn k p).
+      pose proof (argpartition_perm neg k ltac:(lia)) as P. fold p in P. rewrite Hneg in P.
+      assert (HLp : length p = n) by (rewrite (Permutation_length P); apply seq_length).
+      assert (HLi : length index = k) by (unfold index; rewrite firstn_length; lia).
+      assert (NDp : NoDup p) by (apply (Permutation_NoDup (Permutation_sym P)), seq_NoDup).
+      assert (NDi : NoDup index).
+      { unfold index. rewrite <- (firstn_skipn k p) in NDp. apply NoDup_app_l in NDp. exact NDp. }
+      assert (Hin : forall i, In i p -> (i < n)%nat) by (intros i Hi; apply (Permutation_in _ P), in_seq in Hi; lia).
+      assert (Hidx : forall i, In i index -> (i < n)%nat).
+      { intros i Hi. apply Hin. unfold index in Hi. rewrite <- (firstn_skipn k p). apply in_or_app. left; exact Hi. }
+      assert (Hbest : forall i j, In i index -> (j < n)%nat -> ~ In j index -> nthq scores j <= nthq scores i).
+      { intros i j Hi Hj Hnj.
+        destruct (In_nth _ _ 0%nat Hi) as (a & Ha & Ea). rewrite HLi in Ha.
+        assert (Ea' : nth a p 0%nat = i).
+        { rewrite <- Ea. unfold index. rewrite <- (firstn_skipn k p) at 1. rewrite app_nth1 by (rewrite firstn_length; lia). reflexivity. }
+        assert (Hjp : In j (skipn k p)).
+        { assert (In j p) as I by (apply (Permutation_in _ (Permutation_sym P)), in_seq; lia).
+          rewrite <- (firstn_skipn k p) in I. apply in_app_or in I. destruct I as [I|I]; [contradiction | exact I]. }
+        destruct (In_nth _ _ 0%nat Hjp) as (b' & Hb' & Eb). rewrite skipn_length in Hb'.
+        assert (Eb' : nth (k + b') p 0%nat = j).
+        { rewrite <- Eb. rewrite <- (firstn_skipn k p) at 1. rewrite app_nth2 by (rewrite firstn_length; lia).
+          rewrite firstn_length. f_equal. lia. }
+        pose proof (argpartition_split neg k a (k + b')%nat ltac:(lia) Ha ltac:(lia) ltac:(lia)) as S. fold p in S.
+        rewrite Ea', Eb' in S. unfold neg in S. rewrite !nthq_neg in S by (auto; apply Hidx; exact Hi).
+        apply Qopp_le_compat in S. rewrite !Qopp_involutive in S. exact S. }
+      destruct sort.
+      + intros H; injection H as <-.
+        set (sub := map (fun i => nthq neg i) index). assert (Hsub : length sub = k) by (unfold sub; rewrite map_length; exact HLi).
+        pose proof (argsort_perm sub) as PS. rewrite Hsub, <- HLi in PS.
+        pose proof (perm_map_nth index 0%nat _ PS) as PI.
+        set (out := map (fun p0 => nth p0 index 0%nat) (argsort sub)) in *.
+        assert (HLo : length out = k) by (rewrite (Permutation_length PI); exact HLi).
+        split; [rewrite HLo; lia|]. split; [apply (Permutation_NoDup (Permutation_sym PI)); exact NDi|].
+        split; [intros i Hi; apply Hidx; apply (Permutation_in _ PI); exact Hi|].
+        split.
+        * intros i j Hi Hj Hnj. apply Hbest; auto; [apply (Permutation_in _ PI); exact Hi|].
+          intros Hj'. apply Hnj. apply (Permutation_in _ (Permutation_sym PI)); exact Hj'.
+        * intros _ a b Hab Hb. rewrite HLo in Hb.
+          assert (HLas : length (argsort sub) = k) by (rewrite (Permutation_length PS), seq_length; exact HLi).
+          pose proof (argsort_sorted sub a b Hab ltac:(lia)) as S.
+          assert (Hqa : (nth a (argsort sub) 0 < k)%nat).
+          { assert (In (nth a (argsort sub) 0%nat) (argsort sub)) as I by (apply nth_In; lia).
+            apply (Permutation_in _ PS), in_seq in I. lia. }
+          assert (Hqb : (nth b (argsort sub) 0 < k)%nat).
+          { assert (In (nth b (argsort sub) 0%nat) (argsort sub)) as I by (apply nth_In; lia).
+            apply (Permutation_in _ PS), in_seq in I. lia. }
+          unfold out. rewrite !(nth_map_gen (fun p0 => nth p0 index 0%nat) (argsort sub) 0%nat 0%nat) by lia.
+          subst sub. unfold neg in *. rewrite !(nthq_map_gen (fun i => nthq (map Qopp scores) i) index 0%nat) in S by lia.
+          rewrite !nthq_neg in S by (apply Hidx, nth_In; lia).
+          apply Qopp_le_compat in S. rewrite !Qopp_involutive in S. exact S.
+      + intros H; injection H as <-. split; [rewrite HLi; lia|]. split; [exact NDi|]. split; [exact Hidx|].
+        split; [exact Hbest | discriminate].
+  Qed.
+
+(** D11: sort=False with k >= len(scores) raises (np.arange(scores)) whatever the oracles answer *)
+Theorem top_k_unsorted_refuted :
+  exists scores k, (length scores <= k)%nat /\ forall argsort argpartition, top_k argsort argpartition scores k false = Err.
+Proof. exists [1; 3; 2], 3%nat. split; [simpl; lia | reflexivity]. Qed.
